@@ -23,6 +23,9 @@ P = {
  "C12": dict(level="other", tech="interval + linear-form abstract interpretation of Step cells (cycle bounds, AllCycles accounting, stop status with Stopped partitioned, OnPC/WDM callback arguments and ordering) plus SSA structural rules (module-wide writers of Stopped/AllCycles, natural-loop shape and dominance in RunUntil)",
    text="Cycle count >= 1 and exact accounting are decided for every register/memory valuation of each opcode x M,X,E x interrupt cell in both packages; the stop clause by cells with Stopped fixed plus a module-wide who-may-store rule; RunUntil by a ranking argument whose premises (budget test, target test dominating Step with no effect between, counter advanced only by Step's first result >= 1, result recomputed after the loop) are structural SSA facts. Together they are an inductive argument, not an exploration; loops are not unrolled.",
    note="Assumes user callbacks and the Logger do not modify the CPU (outside the library); flags 0/1 (C01/flags01). cpualt declares OnPC but never consults it: the OnPC clause is checked for the interpreter that dispatches it.", ref="4 C12"),
+ "C02": dict(level="other", tech="sibling congruence: opcode/cycle tables read from the interpreted initialisers compared entry-wise; Step of both packages abstractly interpreted per opcode x M,X,E x interrupt cell over identically named symbols with exact gated merges, and the two abstract transformers (fields, return, bus-access trace, branch trace) compared syntactically",
+   text="A sufficient condition for the lock-step equivalence: if for every cell both Step functions denote the same hash-consed term for every output and the same ordered bus trace, they compute the same results on every state of the cell. It catches any one-sided change of a constant, operator, table entry, field, access order or branch. It is not a necessary condition: a behaviour-preserving restructuring of one copy that changes its term structure is reported (DESIGN.md section 6).",
+   note="Hypothesis of the property: whole bus mapped. Declared asymmetries: OnPC prologue of cpu65c816.Step, debug latches Bus.EA/Bus.Write/Bus.M. Functions not reachable from Step (Reset, Init*, TriggerIRQ) are not compared.", ref="4 C02"),
 }
 reasons_pending = "no check is registered for this property at this commit (machinery not built yet); see DESIGN.md section 4 for the planned static rules"
 
